@@ -1,5 +1,44 @@
 """Human-written level texts for MANIFEST.json."""
 META = {
+    "C01": dict(
+        text="Proof: for every tree, outcome oracle and stream the denotational flow model offers each enabled child exactly the results of the events its parent passed (passed_mem, "
+             "passed_count: multiplicities add up, nothing lost/duplicated/invented), every root the whole stream (roots_offered), and prunes disabled subtrees entirely (disabled_pruned, "
+             "silentN_all). The model's shape is pinned to the source by regenerated skeleton equalities (skeleton_*). The per-edge conservation under EVERY interleaving of workers and async "
+             "completions is an invariant of the node component model (Properties/ExecLedger). Real executor runs are compared with the flow model and judged by the trace monitor.",
+        note="Trusted: Lean kernel, model transcription, Go channel/WaitGroup/Once semantics, harness nodes, extractor. The Go scheduler is sampled, not enumerated, on the real code.",
+    ),
+    "C02": dict(
+        text="Proof: the handler is offered exactly one report per failed event carrying that event, none for passed/filtered events (reports_exact via injectivity of the report wrapper, "
+             "report_only_for_failures), reports go to the node's own handler only (handler_gets_reports), a node without handler only counts (no_handler_only_counts); handler edge "
+             "conservation under every interleaving in the component model. Real runs: handlers (sync and async) check pointer identity of the original event and of the returned error.",
+        note="Trusted as C01. Found and repaired: F3 (async error handlers panicked).",
+    ),
+    "C03": dict(
+        text="Proof: close-cascade invariants of the node component model under every interleaving of its workers, async completions and downstream consumers: WaitGroup count = live workers, "
+             "a single Once holder, Shutdown only after every processing call returned, children and handler closed only after Shutdown returned, each exactly once, never a send on a closed channel "
+             "(Properties/ExecCascade). Source shape pinned by skeleton equalities for runNode, startWorkers, Execute, waitTimeout, superviseSource, Shutdown. Real runs are judged by sequence stamps.",
+        note="Trusted as C01, plus H-async. Liveness (Execute does return) is observed on real runs (watchdog), not proved.",
+    ),
+    "C04": dict(
+        text="Proof: ledger invariants of the component model under every interleaving: offered = enqueued + dropped (counting form), nothing is ever dropped at a non-discarding target, every drop "
+             "happens at a full buffer and is counted, a send to a discarding target is always enabled (never blocks) (Properties/ExecLedger). Real runs: per-edge multiset equations relative to what "
+             "the parent received, discarded_events_total per node id, gated scenarios for progress.",
+        note="Trusted as C01. Found and repaired: F4 (handlers ignored discard_on_full_buffer and blocked the parent).",
+    ),
+    "C05": dict(
+        text="Proof of the discipline + measured runtime (partial): the component model has exactly `workers` worker threads each processing one event at a time, so at most `workers` processing "
+             "calls are in progress (structural; pinned by skeleton_startWorkers/skeleton_runNode); Init/Setup of every node and handler precede worker start (skeleton_setupNodes, skeleton_execute). "
+             "Data-race freedom is a property of the Go memory model: thorough tier runs the harness under the race detector; quick tier checks high-water marks and setup counts on real runs.",
+        note="Partial: data races cannot be stated about a Lean model of firebolt alone; they are searched for with -race on the real code. Trusted as C01.",
+        technique="Lean 4 component model + regenerated skeleton equalities + trace monitor (+ Go race detector in the thorough tier)",
+    ),
+    "C16": dict(
+        text="Proof: processed + filtered + failed = received for every oracle and input, a fanout result counts once, counters depend only on the node's own input (counters_partition, "
+             "fanout_counts_once, counters_local); counter invariant under every interleaving in the component model (Properties/ExecLedger). Real runs: prometheus counters per run-unique node id "
+             "are read back and compared with the model's prediction and with the oracle applied to what the node actually received.",
+        note="Trusted as C01, plus unique node ids (C13).",
+    ),
+
     "C19": dict(
         text="Proof of the logic + measured runtime (partial): token-bucket law for every operation sequence (bucket_bound, window_bound, time_for_grants: n grants need at "
              "least (n - burst)/rate time, from any reachable bucket state); model wiring: every recovery emission takes exactly one token of the single shared limiter and main-"
